@@ -10,6 +10,7 @@ import (
 	"math/big"
 	"os"
 	"path/filepath"
+	"strings"
 	"sync"
 	"testing"
 
@@ -282,6 +283,21 @@ func c18Build(c *c18Case) (shared []any, ops []c18Op, err error) {
 		}
 		return errStr(msg.Verify(nil, sv))
 	}})
+	// ... and the same with a signer that reaches its key only through crypto.Signer (HSM / KMS style)
+	if osg, err := cose.NewSigner(cose.Algorithm(sk.Alg), opaqueSigner{sk.Private()}); err == nil {
+		shared = append(shared, osg)
+		ops = append(ops, c18Op{"Sign/shared-opaque-signer", func() string {
+			ctr.Lock()
+			ctr.n++
+			id := ctr.n
+			ctr.Unlock()
+			msg := &cose.Sign1Message{Headers: cose.Headers{Protected: cose.ProtectedHeader{int64(1): cose.Algorithm(sk.Alg)}}, Payload: []byte(fmt.Sprintf("distinct message %d", id))}
+			if e := msg.Sign(refcose.NewEntropy([]byte{byte(id)}), nil, osg); e != nil {
+				return errStr(e)
+			}
+			return errStr(msg.Verify(nil, sv))
+		}})
+	}
 	return shared, ops, nil
 }
 
@@ -312,7 +328,7 @@ func checkC18(c c18Case) error {
 		if after := dumpAll(shared); after != before {
 			return finding("mutates/"+opClass(op.name), "%s modifies a shared value\n%s", op.name, firstDiff(before, after))
 		}
-		if r2 := op.run(); r2 != want[i] && op.name != "Sign/shared-signer" {
+		if r2 := op.run(); r2 != want[i] && !strings.HasPrefix(op.name, "Sign/shared-") {
 			return finding("unstable-result/"+opClass(op.name), "%s returns %q then %q", op.name, want[i], r2)
 		}
 		stats.Class("op/" + opClass(op.name))
@@ -429,6 +445,11 @@ func writeInflight(c *c18Case) {
 	cb, _ := json.Marshal(c)
 	rf := replayFile{Property: "C18", Kind: "c18", Key: "data-race", Message: "in-flight case when the process ended (data race reported by the race detector, or crash)", Case: cb}
 	b, _ := json.Marshal(rf)
+	if p := os.Getenv("VERIF_INFLIGHT"); p != "" {
+		os.MkdirAll(filepath.Dir(p), 0o755)
+		os.WriteFile(p, b, 0o644)
+		return
+	}
 	os.MkdirAll(dir, 0o755)
 	os.WriteFile(filepath.Join(dir, fmt.Sprintf("C18-inflight-%s.json", shardID())), b, 0o644)
 }
